@@ -27,6 +27,7 @@ import (
 //	G3  a struct field whose address is passed to sync/atomic anywhere in the package is never read or written
 //	    plainly outside construction
 //	G5  no append onto a loop-invariant slice inside a loop when the result outlives the iteration (C15.R4 generalised)
+//	G6  no signed remainder of a converted unsigned 64-bit value (int(hash) % n is negative for half of all hashes)
 //	G4  storage given back to a pool is not returned or stored by the function that releases it (a deferred release
 //	    counts for every return); followed through method results, slices, conversions that alias and spilled results
 //
@@ -611,6 +612,18 @@ func runGeneric(c *Ctx, spec *PropSpec) {
 		}
 	}
 	c.Pass(spec.ID+".G5", strings.Join(pkgs, ",")+":appends-in-loops", 0, fmt.Sprintf("%d append-in-loop sites judged", napp))
+	// G6
+	c.Rule(spec.ID+".G6", "no signed remainder of a converted unsigned 64-bit value (int(h) % n can be negative)", 1)
+	nrem := 0
+	for _, fn := range fns {
+		fs, k := negativeRemainders(fn)
+		nrem += k
+		ord := ordCounter{}
+		for _, f := range fs {
+			c.Fail(spec.ID+".G6", ord.next(fn, "negative-remainder"), f.pos, fmt.Sprintf("%s takes the remainder of an unsigned 64-bit value after converting it to a signed integer: for values with the top bit set the conversion is negative and Go's %% keeps the sign, so the result used as an index or offset can be negative - with a hash as input that is about half of all keys", fn.Name()))
+		}
+	}
+	c.Pass(spec.ID+".G6", strings.Join(pkgs, ",")+":remainders", 0, fmt.Sprintf("%d remainder operations judged", nrem))
 }
 
 func discoverGeneric(c *Ctx) {
@@ -641,6 +654,15 @@ func discoverGeneric(c *Ctx) {
 		}
 	}
 	fmt.Fprintf(os.Stderr, "G5 %d append-in-loop sites\n", ns)
+	nr := 0
+	for _, fn := range fns {
+		fs, k := negativeRemainders(fn)
+		nr += k
+		for _, f := range fs {
+			fmt.Fprintf(os.Stderr, "G6 %s  %s\n", shortPos(c, f.pos), fn.String())
+		}
+	}
+	fmt.Fprintf(os.Stderr, "G6 %d remainder sites\n", nr)
 }
 
 // ---------------------------------------------------------------------------------------------
@@ -893,4 +915,40 @@ func appendResultRetained(call *ssa.Call, body map[*ssa.BasicBlock]bool) bool {
 		return false
 	}
 	return walk(call, 0)
+}
+
+// ---------------------------------------------------------------------------------------------
+// G6 signed remainder of a converted unsigned value
+
+type g6Finding struct {
+	fn  *ssa.Function
+	pos token.Pos
+}
+
+// negativeRemainders: `int(h) % n` (or int64(h) % n) where h is an unsigned 64-bit value: the conversion of a value with
+// the top bit set is negative and Go's % keeps the sign of the dividend, so the "index" can be negative. (uint64(...) % n
+// converted afterwards is fine.)
+func negativeRemainders(fn *ssa.Function) (out []g6Finding, sites int) {
+	forEachInstr(fn, false, func(_ *ssa.Function, in ssa.Instruction) {
+		bo, ok := in.(*ssa.BinOp)
+		if !ok || bo.Op != token.REM {
+			return
+		}
+		sites++
+		cv, ok := bo.X.(*ssa.Convert)
+		if !ok {
+			return
+		}
+		from, okf := cv.X.Type().Underlying().(*types.Basic)
+		to, okt := cv.Type().Underlying().(*types.Basic)
+		if !okf || !okt {
+			return
+		}
+		unsigned64 := from.Kind() == types.Uint64 || from.Kind() == types.Uint || from.Kind() == types.Uintptr
+		signed := to.Kind() == types.Int || to.Kind() == types.Int64
+		if unsigned64 && signed {
+			out = append(out, g6Finding{fn, bo.Pos()})
+		}
+	})
+	return
 }
